@@ -432,9 +432,10 @@ class SecondaryService(Service):
 
         # Clone and add characteristics.
         for charac in instance.characteristics():
-            service.add_characteristic(charac)
+            charac_obj = charac.build()
+            service.add_characteristic(charac_obj)
             if charac.alias:
-                setattr(service, charac.alias, charac)
+                setattr(service, charac.alias, charac_obj)
 
         # Return our cloned service
         return service
